@@ -744,7 +744,8 @@ pub fn run_c06(rep: &mut Report) {
         let mut done = 0u64;
         while done < per {
             // one history of ~20k bits on one Ps2Decoder
-            let hist_len = 20_000u64.min(per - done);
+            // the first history of every worker is a long one
+            let hist_len = (if done == 0 { 600_000u64 } else { 20_000u64 }).min(per - done);
             let mut recent: VecDeque<String> = VecDeque::new();
             let r = guarded(|| {
                 let mut d = Ps2Decoder::new();
